@@ -71,8 +71,10 @@ PROPS = {
             "level_text": "Proved for all inputs: candidate intervals inside [0,n] with lengths in [2m, min(M,n)] and non-empty for n>=2m; per-interval "
                           "score/maximiser == max / first argmax over admissible splits of the column-summed change score (any change score meeting the "
                           "interface contract); greedy selection: every changepoint supported by an above-threshold interval, every above-threshold "
-                          "interval contains a changepoint, spacing >= m. 'Exactly the greedy sequence' and threshold monotonicity: bounded "
-                          "(reference greedy, all threshold pairs).",
+                          "interval contains a changepoint, spacing >= m; and 'exactly the greedy sequence': with the pick order = the order before the final "
+                          "sort, each changepoint is the maximiser of an interval (skolem witness WIT) that scores above the threshold and at least as high as "
+                          "every interval not containing an earlier pick (first maximum on ties) - greedy_changepoint_selection and run_seeded_binseg. "
+                          "Threshold monotonicity (a relation between two runs): bounded (reference greedy, all threshold pairs).",
             "level_note": "np.geomspace/round/unique/ceil/log assumed contracts; termination of the greedy loop not proved; threshold formula under C15"},
     "C08": {"category": "proof", "driver": "C08", "claimed": True,
             "technique": "contract-based deductive verification of moving_window_transform, where and get_moving_window_changepoints "
@@ -88,7 +90,9 @@ PROPS = {
             "level_text": "Proved for all inputs: make_anomaly_intervals returns exactly the admissible inner intervals (both inclusions); per-candidate "
                           "score == max of the column-summed local anomaly score over them (0 when there is none: argmax is never taken of an empty "
                           "set), the scores-table columns hold the attaining inner interval; greedy selection: supported, exhaustive, pairwise "
-                          "disjoint, strictly inside the data, length >= m. 'Exactly the greedy sequence' and threshold monotonicity: bounded.",
+                          "disjoint, strictly inside the data, length >= m; and 'exactly the greedy sequence' (pick order = order before the final sort; each anomaly "
+                          "is the listed inner interval of a candidate - skolem witness WIT - scoring above the threshold and at least as high as every candidate "
+                          "not overlapping an earlier pick, first maximum on ties): greedy_anomaly_selection and run_circular_binseg. Threshold monotonicity: bounded.",
             "level_note": "local-anomaly-score interface assumed for user scores (the built-in LocalAnomalyScore adapter is proved under C06); termination of the greedy loop "
                           "not proved"},
     "C10": {"category": "proof", "driver": "C10", "claimed": True,
